@@ -327,6 +327,64 @@ func Count(b bucket) int {
 	return n
 }
 
+// --- a variadic runner of step records, a tri-state lookup dispatched by switch and by comparison
+type step struct {
+	what string
+	run  func() error
+}
+
+func runSteps(steps ...step) error {
+	for _, st := range steps {
+		if err := st.run(); err != nil {
+			return fmt.Errorf("%s: %w", st.what, err)
+		}
+	}
+	return nil
+}
+
+func Steps() error {
+	first := func() error { _, err := a(); return err }
+	return runSteps(step{"first", first}, step{"second", call})
+}
+
+type op uint8
+
+const (
+	opNone op = iota
+	opPut
+	opDel
+)
+
+func pending(m map[string]int, d map[string]bool, k string) (int, op) {
+	if v, ok := m[k]; ok {
+		return v, opPut
+	} else if d[k] {
+		return 0, opDel
+	}
+	return 0, opNone
+}
+
+func Get(m map[string]int, d map[string]bool, k string) int {
+	switch v, o := pending(m, d, k); o {
+	case opPut:
+		return v
+	case opDel:
+		del()
+		return 0
+	default:
+		put()
+		return -1
+	}
+}
+
+func Deleted(m map[string]int, d map[string]bool, k string) bool {
+	if _, o := pending(m, d, k); o == opDel {
+		del()
+		return true
+	}
+	return false
+}
+
 func Fill(x, y int) int {
 	var p pair
 	if err := fill(&p, x, y); err != nil {
@@ -727,5 +785,48 @@ func TestAccessorIsSubstitutedInExpressions(t *testing.T) {
 	out := render(t, v.Body)
 	if strings.Contains(out, "rec()") || !strings.Contains(out, "b.db.data[b.name]") {
 		t.Errorf("accessor call left in the range operand:\n%s", out)
+	}
+}
+
+func TestVariadicStepRunnerIsUnrolled(t *testing.T) {
+	p := loadTest(t)
+	v := p.Expand(fn(t, p, "Steps"), ExpandOpt{Key: "t", Stop: leaf})
+	// call() (the second step) runs only after a() (inside the first step's closure) succeeded
+	if !v.OnlyVia(callNode(t, v, "call"), successEdges(v, "a")) {
+		t.Errorf("second step reachable without the first having succeeded:\n%s", render(t, v.Body))
+	}
+}
+
+func TestTriStateResultEntersItsCase(t *testing.T) {
+	p := loadTest(t)
+	v := p.Expand(fn(t, p, "Get"), ExpandOpt{Key: "t", Stop: leaf})
+	g := v.Graph()
+	// del() only where the deleted-set lookup hit, put() only where it missed
+	var hit, miss []*cfgx.Edge
+	for _, n := range g.Nodes {
+		if n.Block != nil && n.Block.Cond == n.AST && len(n.Succs) == 2 {
+			if ix, ok := n.AST.(*ast.IndexExpr); ok {
+				if id, ok := ix.X.(*ast.Ident); ok && id.Name == "d" {
+					hit, miss = append(hit, n.Succs[0]), append(miss, n.Succs[1])
+				}
+			}
+		}
+	}
+	if len(hit) == 0 || !v.OnlyVia(callNode(t, v, "del"), hit) || !v.OnlyVia(callNode(t, v, "put"), miss) {
+		t.Errorf("the helper's constant results do not enter their cases:\n%s", render(t, v.Body))
+	}
+	w := p.Expand(fn(t, p, "Deleted"), ExpandOpt{Key: "t", Stop: leaf})
+	hit = nil
+	for _, n := range w.Graph().Nodes {
+		if n.Block != nil && n.Block.Cond == n.AST && len(n.Succs) == 2 {
+			if ix, ok := n.AST.(*ast.IndexExpr); ok {
+				if id, ok := ix.X.(*ast.Ident); ok && id.Name == "d" {
+					hit = append(hit, n.Succs[0])
+				}
+			}
+		}
+	}
+	if len(hit) == 0 || !w.OnlyVia(callNode(t, w, "del"), hit) {
+		t.Errorf("comparison with a constant not threaded:\n%s", render(t, w.Body))
 	}
 }
